@@ -353,3 +353,87 @@ Definition from_user_parts_go (t id r : bytes) : go bytes :=
         then bind (set_at buf3 w3 c_hash) (fun b => copy_at b (w3 + 1)%Z r)
         else Ok (buf3, w3)) (fun '(buf4, w4) =>
   slice_to buf4 w4))).
+
+(* ------------------------------------------------------------------------------------------ *)
+(* 5. pkg/typesystem hasCycle as coded (called by validateRelation for every relation of every
+   type when a model is written, and again whenever a model is loaded): a depth-first walk over
+   the computed usersets of ONE object type in which [visited] is the set of relations on the
+   current path (the map is cloned at every call), so shared sub-structure is walked once per
+   PATH.  The model counts the calls: [budget] is decremented at every call; HBudget = more
+   calls than the budget.  Relations of a type are numbered; an undefined relation is any
+   number >= length tab. *)
+
+Inductive rw :=
+| RThis                          (* direct assignment *)
+| RTTU                           (* tuple-to-userset: not followed by hasCycle *)
+| RComputed (r : nat)            (* computed userset on relation r of the same type *)
+| RNode (children : list rw).    (* union / intersection / difference (base, subtract) / empty *)
+
+Definition reltab := list rw.
+
+Inductive hres := HNo | HCycle | HErr | HBudget.
+
+Fixpoint has_cycle (fuel : nat) (tab : reltab) (rel : nat) (rewrite : rw) (visited : list nat)
+         (budget : N) : hres * N :=
+  match fuel with
+  | O => (HBudget, 0)
+  | S f =>
+      if budget =? 0 then (HBudget, 0)
+      else
+        let b := budget - 1 in
+        let visited' := rel :: visited in
+        match rewrite with
+        | RThis | RTTU => (HNo, b)
+        | RComputed r' =>
+            if existsb (Nat.eqb r') visited' then (HCycle, b)
+            else match nth_error tab r' with
+                 | None => (HErr, b)
+                 | Some rw' => has_cycle f tab r' rw' visited' b
+                 end
+        | RNode cs =>
+            (fix go_c (cs : list rw) (b : N) : hres * N :=
+               match cs with
+               | [] => (HNo, b)
+               | c :: cs' =>
+                   match has_cycle f tab rel c visited' b with
+                   | (HNo, b') => go_c cs' b'
+                   | other => other
+                   end
+               end) cs b
+        end
+  end.
+
+(* HasCycle for every relation of a type, in order, stopping at the first cycle / error *)
+Fixpoint type_cost (fuel : nat) (tab : reltab) (rels : list (nat * rw)) (budget : N) : hres * N :=
+  match rels with
+  | [] => (HNo, budget)
+  | (i, r) :: rest =>
+      match has_cycle fuel tab i r [] budget with
+      | (HNo, b) => type_cost fuel tab rest b
+      | other => other
+      end
+  end.
+
+Fixpoint index_from {B} (i : nat) (l : list B) : list (nat * B) :=
+  match l with [] => [] | x :: r => (i, x) :: index_from (S i) r end.
+
+Fixpoint model_cost (fuel : nat) (types : list reltab) (budget : N) : hres * N :=
+  match types with
+  | [] => (HNo, budget)
+  | tab :: rest =>
+      match type_cost fuel tab (index_from 0 tab) budget with
+      | (HNo, b) => model_cost fuel rest b
+      | other => other
+      end
+  end.
+
+(* define e_i: e_{i+1} or e_{i+1}   (i < n)      define e_n: [user]        -- a VALID model *)
+Definition diamond (n : nat) : reltab :=
+  map (fun i => RNode [RComputed (S i); RComputed (S i)]) (seq 0 n) ++ [RThis].
+
+(* number of hasCycle calls for relation e_{n-k} of [diamond n] *)
+Fixpoint diamond_calls (k : nat) : N :=
+  match k with O => 1 | S k' => 3 + 2 * diamond_calls k' end.
+
+Fixpoint rw_nodes (r : rw) : nat :=
+  match r with RNode cs => S (list_sum (map rw_nodes cs)) | _ => 1%nat end.
